@@ -452,6 +452,7 @@ type GenCfg struct {
 	Garbage    int  // per mille of variable values that are arbitrary text
 	LeadSaves  bool // the script starts with one to three save statements
 	OtherAssetLead bool // the script starts with a send of ANOTHER asset from one of the main send's source accounts
+	SelfLead       bool // the script starts with a send whose source is also its destination (one of the main send's source accounts)
 	SmallPool  bool // only three account names: repetition within one source becomes the norm
 	NoWorldVars  bool // account variables are never bound to "world"
 	NumberSpellings bool // number literals with leading zeros / explicit minus zero (parser properties)
@@ -610,7 +611,7 @@ func (g *Gen) portionText(num, den *big.Int) string {
 
 func (g *Gen) rawValue(typ string) string {
 	if g.cfg.Garbage > 0 && g.r.Intn(1000) < g.cfg.Garbage {
-		return g.r.Pick([]string{"", " ", "abc", "12", "-7", "+5", "USD", "USD 10", "USD  10", "USD 1 0", "USD ten", "10 USD", "1/2", "1/0", "3/2",
+		return g.r.Pick([]string{"", "", "", " ", "+", "-", "abc", "12", "-7", "+5", "USD", "USD 10", "USD  10", "USD 1 0", "USD ten", "10 USD", "1/2", "1/0", "3/2",
 			"50%", "150%", "1.5%", ".5%", "5.%", "0x10", "1e3", "1_000", "99999999999999999999999999", "world", "a:b", "é", "USD -5", " 5", "5 "})
 	}
 	switch typ {
@@ -629,15 +630,15 @@ func (g *Gen) rawValue(typ string) string {
 		return g.r.Pick(assetPool)
 	case "number":
 		if g.cfg.HugeVars {
-			return g.r.Amount(g.amounts, g.r.Chance(1, 8)).String()
+			return g.spellNumber(g.r.Amount(g.amounts, g.r.Chance(1, 8)))
 		}
-		return bi(int64(g.r.Intn(40))).String()
+		return g.spellNumber(bi(int64(g.r.Intn(40))))
 	case "monetary":
 		a := g.asset
 		if g.r.Chance(1, 25) {
 			a = g.r.Pick(assetPool)
 		}
-		return a + " " + g.r.Amount(g.amounts, g.r.Chance(1, 20)).String()
+		return a + " " + g.spellNumber(g.r.Amount(g.amounts, g.r.Chance(1, 20)))
 	case "portion":
 		d := int64(1 + g.r.Intn(8))
 		n := int64(g.r.Intn(int(d) + 1))
@@ -646,6 +647,19 @@ func (g *Gen) rawValue(typ string) string {
 		return g.r.Pick([]string{"hello", "k", "", "a b", "é", "x\"y", "1/2", "USD 10"})
 	}
 	return "?"
+}
+
+// spellNumber writes a number in base ten, one time in eight with leading zeros (same value: the
+// texts of variables are read in base ten whatever their spelling).
+func (g *Gen) spellNumber(n *big.Int) string {
+	if !g.r.Chance(1, 8) {
+		return n.String()
+	}
+	z := strings.Repeat("0", 1+g.r.Intn(3))
+	if n.Sign() < 0 {
+		return "-" + z + new(big.Int).Neg(n).String()
+	}
+	return z + n.String()
 }
 
 // declare appends a declaration (arguments of the origin must be generated before calling).
@@ -1320,6 +1334,22 @@ func (g *Gen) Program() *GProgram {
 			k := bi(1 + int64(g.r.Intn(int(have))))
 			lead := &GStmt{Kind: StSend, Sent: &GSent{E: &GExpr{Kind: XMonetary, A: &GExpr{Kind: XAsset, S: other}, B: &GExpr{Kind: XNumber, N: k}}},
 				Src: &GSource{Kind: SrcAccount, E: &GExpr{Kind: XAccount, S: a}}, Dst: &GDest{Kind: DstAccount, E: &GExpr{Kind: XAccount, S: "users:001"}}}
+			g.prog.Stmts = append([]*GStmt{lead}, g.prog.Stmts...)
+		}
+		if g.cfg.SelfLead && len(targets) > 0 {
+			// money sent by an account to itself: its balance must be what it was
+			a := g.r.Pick(targets)
+			k := bi(int64(g.r.Intn(15)))
+			if b, ok := g.bal[a][sendAsset]; ok && b.Sign() > 0 && b.IsInt64() && g.r.Chance(2, 3) {
+				k = bi(1 + int64(g.r.Intn(int(b.Int64()%1000)+1))%(b.Int64()+1))
+			}
+			var dst *GDest = &GDest{Kind: DstAccount, E: &GExpr{Kind: XAccount, S: a}}
+			if g.r.Chance(1, 3) {
+				dst = &GDest{Kind: DstInorder, Clauses: []*GClause{{Cap: &GExpr{Kind: XMonetary, A: &GExpr{Kind: XAsset, S: sendAsset}, B: &GExpr{Kind: XNumber, N: bi(int64(g.r.Intn(5)))}}, To: &GKod{To: &GDest{Kind: DstAccount, E: &GExpr{Kind: XAccount, S: "users:001"}}}}},
+					Remaining: &GKod{To: &GDest{Kind: DstAccount, E: &GExpr{Kind: XAccount, S: a}}}}
+			}
+			lead := &GStmt{Kind: StSend, Sent: &GSent{E: &GExpr{Kind: XMonetary, A: &GExpr{Kind: XAsset, S: sendAsset}, B: &GExpr{Kind: XNumber, N: k}}},
+				Src: &GSource{Kind: SrcAccount, E: &GExpr{Kind: XAccount, S: a}}, Dst: dst}
 			g.prog.Stmts = append([]*GStmt{lead}, g.prog.Stmts...)
 		}
 		g.prog.Stmts = append(g.prog.Stmts, send)
